@@ -177,4 +177,60 @@ theorem thursdayOf_facts (d : Int) :
       weekday (thursdayOf d - 3) = 1 ∧ thursdayOf (thursdayOf d) = thursdayOf d := by
   unfold thursdayOf weekday; omega
 
+/-! ## years as intervals of day numbers -/
+
+/-- Day number of 1 January. -/
+def yearStart (y : Int) : Int := daysFromCivil y 1 1
+
+theorem yearStart_closed (y : Int) :
+    yearStart y = 365 * (y - 1) + (y - 1) / 4 - (y - 1) / 100 + (y - 1) / 400 - 719162 := by
+  unfold yearStart daysFromCivil
+  simp only [show ((1 : Int) ≤ 2) = True from by simp, if_true, show ¬ ((1 : Int) > 2) from by decide, if_false]
+  omega
+
+theorem yearStart_mono (a b : Int) (h : a ≤ b) : yearStart a + 365 * (b - a) ≤ yearStart b := by
+  rw [yearStart_closed, yearStart_closed]
+  omega
+
+/-- A year has 365 days, or 366 when it is a leap year. -/
+theorem yearStart_succ (y : Int) : yearStart (y + 1) = yearStart y + (if isLeap y then 366 else 365) := by
+  rw [yearStart_closed, yearStart_closed]
+  unfold isLeap
+  by_cases h4 : y % 4 = 0 <;> by_cases h100 : y % 100 = 0 <;> by_cases h400 : y % 400 = 0 <;>
+    simp [h4, h100, h400] <;> omega
+
+/-- A day lies in the year `civilFromDays` assigns to it. -/
+theorem year_bounds (z : Int) : yearStart (civilFromDays z).y ≤ z ∧ z < yearStart ((civilFromDays z).y + 1) := by
+  constructor
+  · have := (yearDay_range' z).1
+    unfold yearDay at this; unfold yearStart; omega
+  · obtain ⟨era, yoe, doy, mp, hy0, hy1, hd0, hd1, hz, hmp, hc⟩ := cfd_spec z
+    rw [hc, yearStart_closed]
+    have hmp0 : 0 ≤ mp := by omega
+    have hmp1 : mp ≤ 11 := by omega
+    unfold startOf at hz
+    simp only
+    by_cases h10 : mp < 10
+    · have e1 : ¬ (mp + 3 ≤ 2) := by omega
+      simp only [h10, if_true, e1, if_false]
+      have g4 : (yoe + era * 400 + 0 + 1 - 1) / 4 = 100 * era + yoe / 4 := by omega
+      have g100 : (yoe + era * 400 + 0 + 1 - 1) / 100 = 4 * era + yoe / 100 := by omega
+      have g400 : (yoe + era * 400 + 0 + 1 - 1) / 400 = era := by omega
+      rw [g4, g100, g400]
+      omega
+    · have e1 : mp - 9 ≤ 2 := by omega
+      simp only [h10, if_false, e1, if_true]
+      omega
+
+/-- … and in no other: the year is determined by the interval. -/
+theorem year_unique (z y : Int) (h0 : yearStart y ≤ z) (h1 : z < yearStart (y + 1)) : (civilFromDays z).y = y := by
+  obtain ⟨b0, b1⟩ := year_bounds z
+  by_cases hlt : (civilFromDays z).y < y
+  · have := yearStart_mono ((civilFromDays z).y + 1) y (by omega)
+    omega
+  · by_cases hgt : y < (civilFromDays z).y
+    · have := yearStart_mono (y + 1) (civilFromDays z).y (by omega)
+      omega
+    · omega
+
 end Rare.C18
